@@ -32,9 +32,12 @@ else:
             bad.append(f"{cls.__name__}: xyz round trip changed atoms/coordinates")
     e = ml.ConformerEnsemble(m, n_conformers=2)
     e.coords = np.stack([m.coords, m.coords + 1.5])
-    r = ml.ConformerEnsemble.loads_xyz(e.dumps_xyz())
-    if r.coords.shape != e.coords.shape or not np.allclose(r.coords, e.coords, atol=1e-6):
-        bad.append("ensemble xyz round trip changed frames")
+    try:
+        r = ml.ConformerEnsemble.loads_xyz(e.dumps_xyz())
+        if r.coords.shape != e.coords.shape or not np.allclose(r.coords, e.coords, atol=1e-6):
+            bad.append("ensemble xyz round trip changed frames")
+    except BaseException as ex:
+        bad.append(f"ConformerEnsemble: molli rejects its own xyz output: {type(ex).__name__}: {str(ex)[:80]}")
 if bad:
     print("REPRODUCED:", "; ".join(bad[:3]))
     sys.exit(0)
